@@ -285,6 +285,21 @@ impl World {
                 }
                 Err(p) => ExecResult::Panic(p),
             }
+        } else if let Op::AnnotateFile { items, fault } = op {
+            let path = format!("/sim/batch/step{}.json", stepno);
+            match annotations_json(&pre, items, *fault) {
+                Some(bytes) => {
+                    stats.probe(if *fault == FileFault::None { "annotations_file_loaded" } else { "annotations_file_torn" });
+                    self.fs.put(&path, &bytes);
+                    let store = &mut self.store;
+                    match catch(|| store.annotate_from_file(&path).map(|_| ())) {
+                        Ok(Ok(())) => ExecResult::Ok(None),
+                        Ok(Err(e)) => ExecResult::Err(format!("{}", e)),
+                        Err(p) => ExecResult::Panic(p),
+                    }
+                }
+                None => ExecResult::Err("the requests cannot be written down as a file".to_string()),
+            }
         } else {
             // C08: the same request as an ADD / DELETE query, when it has one and must succeed
             let routed = if self.cfg.mutate_via_query && matches!(expected, Outcome::Ok { .. }) {
